@@ -4,6 +4,8 @@ package main
 
 import (
 	"encoding/json"
+	"fmt"
+	"time"
 
 	"github.com/pion/rtp"
 )
@@ -22,13 +24,13 @@ type c17Val struct {
 }
 
 type c17Case struct {
-	Kind  string  `json:"kind"`
-	Codec string  `json:"codec"`
-	V     c17Val  `json:"v"`
-	Bytes []int   `json:"bytes"`
-	Prev  []int   `json:"prev"`
-	Hi    int     `json:"hi"`
-	Class string  `json:"class"`
+	Kind  string `json:"kind"`
+	Codec string `json:"codec"`
+	V     c17Val `json:"v"`
+	Bytes []int  `json:"bytes"`
+	Prev  []int  `json:"prev"`
+	Hi    int    `json:"hi"`
+	Class string `json:"class"`
 	RawV  json.RawMessage
 }
 
@@ -135,9 +137,49 @@ func c17Full(codec string) extCodec {
 	return c17New(codec)
 }
 
+// c17Canary: fixed values built and marshalled through every constructor and codec; what they give must never change
+// during a run (package-level tables, shared pointers or pooled buffers corrupted by an earlier use would show here)
+func c17Canary() string {
+	out := []int{}
+	guard(func() {
+		t0 := time.Unix(1700000000, 123456789)
+		for _, e := range []extCodec{
+			&rtp.AudioLevelExtension{Level: 10, Voice: true}, &rtp.AudioLevelExtension{Level: 11}, &rtp.AudioLevelExtension{Level: 127, Voice: true},
+			&rtp.TransportCCExtension{TransportSequence: 0x1234}, &rtp.PlayoutDelayExtension{MinDelay: 1, MaxDelay: 2},
+			&rtp.AbsSendTimeExtension{Timestamp: 0x123456}, rtp.NewAbsSendTimeExtension(t0), rtp.NewAbsCaptureTimeExtension(t0),
+			rtp.NewAbsCaptureTimeExtensionWithCaptureClockOffset(t0, 0), rtp.NewAbsCaptureTimeExtensionWithCaptureClockOffset(t0, 3*time.Second),
+		} {
+			b, err := e.Marshal()
+			out = append(out, len(b))
+			if err != nil {
+				out = append(out, -1)
+			}
+			out = append(out, ints(b)...)
+		}
+		z := rtp.NewAbsCaptureTimeExtensionWithCaptureClockOffset(t0, 0).EstimatedCaptureClockOffsetDuration()
+		if z == nil {
+			out = append(out, -2)
+		} else {
+			out = append(out, int(*z))
+		}
+	})
+	return fmt.Sprint(out)
+}
+
+var c17Pristine = c17Canary()
+
+func c17CanaryOK() bool { return c17Canary() == c17Pristine }
+
 func c17Decode(codec string, prev, b []byte, usePrev bool) Ev {
 	e := c17New(codec)
-	if usePrev && len(prev)%2 == 1 {
+	if usePrev && len(prev)%4 == 3 && (codec == "abscapture" || codec == "abssend") {
+		// the receiver is a value a constructor handed out
+		if codec == "abscapture" {
+			e = rtp.NewAbsCaptureTimeExtensionWithCaptureClockOffset(time.Unix(1600000000, 7), 0)
+		} else {
+			e = rtp.NewAbsSendTimeExtension(time.Unix(1600000000, 7))
+		}
+	} else if usePrev && len(prev)%2 == 1 {
 		e = c17Full(codec) // the receiver is a value the application built, not an earlier decode
 		if len(prev)%4 == 1 {
 			guard(func() { _ = e.Unmarshal(prev) })
@@ -165,10 +207,29 @@ func runC17(raw json.RawMessage, w *Writer) {
 		var err error
 		r, _ := guard(func() { b, err = e.Marshal() })
 		back := Ev{"res": "none", "fields": c17Fields(c.Codec, c17New(c.Codec))}
+		first := ints(b)
+		again := first
 		if r == "ok" && err == nil {
 			back = c17Decode(c.Codec, nil, b, false)
+			// what Marshal returned is the caller's: it writes over it (and fills the spare capacity, if any);
+			// the same value and its neighbours must still marshal to the same bytes afterwards
+			for i := range b {
+				b[i] ^= 0xFF
+			}
+			full := b[:cap(b)]
+			for i := len(b); i < len(full); i++ {
+				full[i] = 0xEE
+			}
+			guard(func() {
+				b2, err2 := c17Build(c.Codec, c.V).Marshal()
+				if err2 == nil {
+					again = ints(b2)
+				} else {
+					again = []int{-1}
+				}
+			})
 		}
-		w.Emit(Ev{"ev": "marshal", "codec": c.Codec, "v": m["v"], "res": outcome(r, err), "bytes": ints(b), "back": back})
+		w.Emit(Ev{"ev": "marshal", "codec": c.Codec, "v": m["v"], "res": outcome(r, err), "bytes": first, "again": again, "back": back, "canary_ok": c17CanaryOK()})
 	case "unmarshal":
 		b, prev := bytesOf(c.Bytes), bytesOf(c.Prev)
 		var bb []byte
@@ -176,7 +237,7 @@ func runC17(raw json.RawMessage, w *Writer) {
 			bb = b
 		}
 		w.Emit(Ev{"ev": "unmarshal", "codec": c.Codec, "bytes": c.Bytes, "prevlen": len(prev),
-			"fresh": c17Decode(c.Codec, nil, bb, false), "used": c17Decode(c.Codec, prev, bb, len(prev) > 0)})
+			"fresh": c17Decode(c.Codec, nil, bb, false), "used": c17Decode(c.Codec, prev, bb, len(prev) > 0), "canary_ok": c17CanaryOK()})
 	case "sweep":
 		w.Emit(c17Sweep(c.Codec, c.Hi))
 	}
